@@ -31,12 +31,33 @@ def r1(ctx: Ctx) -> None:
                 continue
             lps = loops(p)
             ok = len(lps) == 1 and key(strip_ver(lps[0].iter)) == "self._components"
+            paired = False
+            if not ok and len(lps) == 1 and lps[0].iter is not None and len(lps[0].target) == 2:
+                # for market, shares in zip(self._components, [m.outstanding_shares for m in self._components]):
+                # the second element is the first one's share count
+                from ..terms import normalise
+
+                it = normalise(strip_ver(lps[0].iter))
+                if it[0] == "call" and key(it[1]) == "zip" and len(it[2]) == 2 and key(strip_ver(it[2][0])) == "self._components":
+                    c2 = normalise(strip_ver(it[2][1]))
+                    if c2[0] == "comp" and len(c2[3]) == 1 and not c2[3][0][2] and key(strip_ver(c2[3][0][1])) == "self._components" and len(c2[3][0][0]) == 1 and c2[2] == ("attr", ("bound", c2[3][0][0][0]), "outstanding_shares"):
+                        ok = paired = True
+            if not ok and len(lps) == 1 and lps[0].iter is not None:
+                it0 = strip_ver(lps[0].iter)
+                if it0[0] == "call" and key(it0[1]) == "zip" and len(it0[2]) == 2 and key(strip_ver(it0[2][0])) == "self._components":
+                    second = strip_ver(it0[2][1])
+                    if second[0] == "attr" and second[1] == ("sym", "self"):
+                        ctx.violated(f, f.node, "every component is weighted by its outstanding shares as they are now", "market.outstanding_shares read from the component when the index is computed", f"weights are taken from {short(second)}, a list kept on the index market: a share count changed since it was filled is not seen")
+                        continue
+            if not ok and len(lps) == 1 and "self._components" in key(strip_ver(lps[0].iter)) and key(strip_ver(lps[0].iter)) != "self._components":
+                ctx.unrec(f, f.node, "one pass over the index's components", "the components are walked through a derived sequence that is not modelled", short(lps[0].iter))
+                continue
             ctx.check(ok, f, f.node, "one pass over the index's components", "for market in self._components", ", ".join(short(l.iter) for l in lps))
             if not ok:
                 continue
             l = lps[0]
             el = ("sym", f"{l.target[0]}∈{l.loopid}")
-            w = ("attr", el, "outstanding_shares")
+            w = ("attr", el, "outstanding_shares") if not paired else ("sym", f"{l.target[1]}∈{l.loopid}")
             accs = {}
             for bp in l.paths:
                 ctx.check(not bp.conds and bp.exit[0] == "fall", f, l.node, "every component contributes", "no condition inside the loop", bp.describe()[:100])
